@@ -728,13 +728,27 @@ Proof. apply keyed_query_fresh. exact nat_eqb_eq'. exact it_policy. Qed.
 Lemma sn_eqb_eq a b : sn_eqb a b = true -> a = b.
 Proof. destruct a, b. unfold sn_eqb. simpl. intros H. apply andb_prop in H as [H1 H2].
   apply state_eqb_eq in H1. apply Nat.eqb_eq in H2. congruence. Qed.
-Lemma sim_policy c o k d : sim_ready c = true -> d = sim_dep c k -> sim_survives c o k d = true ->
+Lemma sim_policy c o k d : sim_ready c = true -> d = sim_dep c k -> sim_survives true c o k d = true ->
   sim_ready (sim_cstep c o) = true /\ d = sim_dep (sim_cstep c o) k.
-Proof. intros Hr Hd Hs. destruct o; simpl in *; try discriminate. auto. Qed.
+Proof. intros Hr Hd Hs. destruct o; simpl in *; try discriminate. auto.
+  apply Bool.eqb_prop in Hs. subst b. destruct c; auto. Qed.
 Theorem simulator_evolve_cache_history_free c0 h k d :
-  snd (kstep _ _ _ _ sn_eqb sim_cstep sim_survives sim_dep sim_ready (krun _ _ _ _ sn_eqb sim_cstep sim_survives sim_dep sim_ready c0 h) (KQuery k)) = Some d ->
-  d = sim_dep (fst (krun _ _ _ _ sn_eqb sim_cstep sim_survives sim_dep sim_ready c0 h)) k.
+  snd (kstep _ _ _ _ sn_eqb sim_cstep (sim_survives true) sim_dep sim_ready (krun _ _ _ _ sn_eqb sim_cstep (sim_survives true) sim_dep sim_ready c0 h) (KQuery k)) = Some d ->
+  d = sim_dep (fst (krun _ _ _ _ sn_eqb sim_cstep (sim_survives true) sim_dep sim_ready c0 h)) k.
 Proof. apply keyed_query_fresh. exact sn_eqb_eq. exact sim_policy. Qed.
+(* before 8766d55d: probs_svd under the heralds mask (PNR), then the same basic state with threshold detection *)
+Definition w_sim_flip : list (kop (state * nat) sim_op) :=
+  [KMut (SimCirc 1); KMut (SimHeralds 1); KMut (SimUseMask true); KQuery ([1; 1]%nat, 2%nat); KMut (SimUseMask false)].
+Theorem simulator_evolve_cache_old_code :
+  snd (kstep _ _ _ _ sn_eqb sim_cstep (sim_survives false) sim_dep sim_ready
+         (krun _ _ _ _ sn_eqb sim_cstep (sim_survives false) sim_dep sim_ready sim_init w_sim_flip) (KQuery ([1; 1]%nat, 2%nat)))
+    = Some (1%nat, 1%nat, true) /\
+  sim_dep (fst (krun _ _ _ _ sn_eqb sim_cstep (sim_survives false) sim_dep sim_ready sim_init w_sim_flip)) ([1; 1]%nat, 2%nat)
+    = (1%nat, 1%nat, false) /\
+  snd (kstep _ _ _ _ sn_eqb sim_cstep (sim_survives true) sim_dep sim_ready
+         (krun _ _ _ _ sn_eqb sim_cstep (sim_survives true) sim_dep sim_ready sim_init w_sim_flip) (KQuery ([1; 1]%nat, 2%nat)))
+    = Some (1%nat, 1%nat, false).
+Proof. repeat split; reflexivity. Qed.
 
 (* before bc7ab4f9 Simulator.probs(BasicState) evolved under the mask a previous probs_svd left in the engine *)
 Theorem simulator_probs_old_code :
